@@ -3,6 +3,7 @@
 -/
 import SymfcModel.Model.Tables
 import SymfcModel.Model.Inst
+import SymfcModel.Lemmas.PermSound
 namespace Symfc.C01
 open Symfc
 
@@ -25,5 +26,40 @@ theorem o4_representative_is_row_minimum : Gen.repKindO4 = RepKind.rowMin := by 
 /-- the stage tables of the fast path and of the projector reference path are the same tables (C11.d for C01) -/
 theorem explicit_n_batch_is_bound :
     Gen.explicitBatchBoundO2 = true ∧ Gen.explicitBatchBoundO3 = true ∧ Gen.explicitBatchBoundO4 = true := by decide
+
+/-- C01.b (soundness, every order, every representative rule, every batch split, every write order):
+    every edge of the final pointer graph joins two elements of ONE row of one stage. Rows consist of index
+    permutations of one combination (`stages_sound`), so no component — hence no basis column of `c_pt` — ever mixes
+    elements that are not related by an index permutation. -/
+theorem every_link_joins_two_elements_of_one_row (ops : CutoffOps) (c : Cell) (n : Nat) (rk : RepKind)
+    (stages : List Stage) (cut : Option CutoffIn) (nBatch : String → Nat) (ptr' : Array Int)
+    (h : permDecompr ops c n rk stages cut nBatch = some ptr') (a b : Nat) (hl : linked ptr' a b) :
+    ∃ r ∈ allStageRows ops c n stages cut, a ∈ r ∧ b ∈ r :=
+  permDecompr_links_within_rows h a b hl
+
+/-- C01.c (order 4, representative = row minimum): if the rows are orbit-closed (two rows sharing an element have
+    the same elements — true because every row holds a whole S₄×T orbit; that lifting is `C01_orbit_closed_*` when
+    present, otherwise validated per input by the correspondence harness) then the components of the pointer graph
+    are EXACTLY the rows: every orbit is one component, for every batch split and write order. -/
+theorem o4_components_are_exactly_the_rows (c : Cell) (cut : Option CutoffIn) (nBatch : String → Nat)
+    (ptr' : Array Int)
+    (h : permDecompr Gen.cutoffOps c 4 Gen.repKindO4 Gen.stagesO4 cut nBatch = some ptr')
+    (hoc : OrbitClosed (allStageRows Gen.cutoffOps c 4 Gen.stagesO4 cut))
+    (hb : ∀ r ∈ allStageRows Gen.cutoffOps c 4 Gen.stagesO4 cut, ∀ e ∈ r, e < c.N ^ 4 * 3 ^ 4 / c.nlp)
+    (a b : Nat) :
+    SameComp ptr' a b ↔ ∃ r ∈ allStageRows Gen.cutoffOps c 4 Gen.stagesO4 cut, a ∈ r ∧ b ∈ r := by
+  have hk : Gen.repKindO4 = RepKind.rowMin := by decide
+  rw [hk] at h
+  exact permDecompr_rowMin_sameComp_iff h hoc hb a b
+
+/-- C01.c / C11.b (order 4): the pointer array itself does not depend on the batch counts -/
+theorem o4_pointer_array_independent_of_batching (c : Cell) (cut : Option CutoffIn) (nBatch nBatch' : String → Nat)
+    (p1 p2 : Array Int)
+    (h1 : permDecompr Gen.cutoffOps c 4 Gen.repKindO4 Gen.stagesO4 cut nBatch = some p1)
+    (h2 : permDecompr Gen.cutoffOps c 4 Gen.repKindO4 Gen.stagesO4 cut nBatch' = some p2)
+    (hoc : OrbitClosed (allStageRows Gen.cutoffOps c 4 Gen.stagesO4 cut)) : p1 = p2 := by
+  have hk : Gen.repKindO4 = RepKind.rowMin := by decide
+  rw [hk] at h1 h2
+  exact permDecompr_rowMin_batch_indep h1 h2 hoc
 
 end Symfc.C01
